@@ -90,6 +90,11 @@ func classify(err error) (string, string) {
 	if stderrors.As(err, &de) {
 		return "RDecode", msg
 	}
+	// atree CopyError raised while the imported value is assembled (reported as a generic user error by the
+	// interpreter and as an unclassified error by the VM)
+	if strings.Contains(err.Error(), "can't copy container") {
+		return "RCopy", msg
+	}
 	cls := lib.ClassifyRuntimeError(err)
 	if cls == "CheckerError" || cls == "ParseError" {
 		return "static", msg
